@@ -21,6 +21,9 @@ CHECKS = {
  "C07": dict(cat="fault_enumeration", tech="exhaustive crash-point enumeration: one run of each history (<=2/<=3 ops over 10) on a logging FS, every log prefix x write-back subsets x torn in-flight write replayed onto Pebble's strict MemFS, each distinct durable image recovered by the real open path and compared with the acknowledged / acknowledged+in-flight reference state",
    text="Every file-system operation issued during every short mutation history is a crash point; for each, all admissible durable images (nothing, each subset of dirty files/directories, torn write) are rebuilt and reopened with the real code; the recovered store must answer the whole query battery like the state before or after the in-flight call and its physical indexes must be consistent with its records; interrupted rebuilds (also multi-chunk, 1100 signatures) must keep every record and heal on a second rebuild.",
    note="Trusted: Pebble's strict MemFS as the crash model (per-file and per-directory sync granularity); Pebble's WAL/MANIFEST recovery is exercised for real but not explored inside. Database creation itself is outside (crash points start after the first open returned).", ref="3/C07"),
+ "C18": dict(cat="exploration", tech="bounded-exhaustive enumeration: all signature lists <=3 over a pool + generated lists across the 1000-entry batch boundary, EVERY truncation offset of their JSON, a malformed menu, and all add/get histories <=3 on both back ends, on the real stores",
+   text="Every list within the bound is migrated into a fresh real database and exported, and compared field for field with its last-wins set; every byte-truncation of the small files (and every offset around batch boundaries of the large ones) must be an error or lossless; every add/batch-add/save-load history of up to three steps fetches every added ID back on both back ends. Exhaustive within the pools and bounds. The atomic-replace clause of SaveDatabase is covered by the save-atomicity unit when present (see DESIGN).",
+   note="Trusted: comparison modulo nil/empty slices and nil/zero control-flow hints (gob/omitempty cannot represent the difference).", ref="3/C18"),
 }
 NOT_YET = {}
 ALL = ["C%02d" % i for i in range(1, 21)]
